@@ -4,6 +4,7 @@ package c02
 import (
 	"archive/zip"
 	"bytes"
+	"compress/zlib"
 	"crypto"
 	"crypto/rand"
 	"crypto/sha256"
@@ -11,13 +12,16 @@ import (
 	"debug/macho"
 	"encoding/base64"
 	"encoding/binary"
+	"encoding/xml"
 	"fmt"
 	"github.com/sassoftware/relic/v8/xverif/apkref"
 	"io"
 	"os"
 	"os/exec"
 	"path/filepath"
+	"regexp"
 	"sort"
+	"strconv"
 	"strings"
 	"testing"
 
@@ -262,6 +266,13 @@ func regions(format string, data []byte, contentPath string) ([]region, error) {
 			tl := int(binary.BigEndian.Uint64(data[8:]))
 			if hs+tl <= len(data) {
 				out = append(out, region{hs, tl, "xar:toc"})
+				// every archived file's heap extent (at any directory depth), from an
+				// independent reading of the table of contents
+				for _, f := range xarHeapFiles(data[hs : hs+tl]) {
+					if f.length > 0 && hs+tl+f.offset+f.length <= len(data) {
+						out = append(out, region{hs + tl + f.offset, f.length, "xar:heap:" + f.path})
+					}
+				}
 			}
 		}
 	case "rpm":
@@ -301,6 +312,74 @@ func regions(format string, data []byte, contentPath string) ([]region, error) {
 		}
 	}
 	return out, nil
+}
+
+type xarFile struct {
+	path           string
+	offset, length int
+}
+
+// xarHeapFiles inflates the table of contents and walks <file> elements recursively.
+func xarHeapFiles(toc []byte) []xarFile {
+	zr, err := zlib.NewReader(bytes.NewReader(toc))
+	if err != nil {
+		return nil
+	}
+	dec := xml.NewDecoder(zr)
+	var out []xarFile
+	var names []string
+	var stack []string
+	var cur *xarFile
+	var text strings.Builder
+	for {
+		tok, err := dec.Token()
+		if err != nil {
+			break
+		}
+		switch v := tok.(type) {
+		case xml.StartElement:
+			stack = append(stack, v.Name.Local)
+			text.Reset()
+			if v.Name.Local == "file" {
+				names = append(names, "?")
+			}
+			if v.Name.Local == "data" && len(stack) >= 2 && stack[len(stack)-2] == "file" {
+				cur = &xarFile{}
+			}
+		case xml.CharData:
+			text.Write(v)
+		case xml.EndElement:
+			val := strings.TrimSpace(text.String())
+			parent := ""
+			if len(stack) >= 2 {
+				parent = stack[len(stack)-2]
+			}
+			switch {
+			case v.Name.Local == "name" && parent == "file" && len(names) > 0:
+				names[len(names)-1] = val
+			case v.Name.Local == "offset" && parent == "data" && cur != nil:
+				cur.offset, _ = strconv.Atoi(val)
+			case v.Name.Local == "length" && parent == "data" && cur != nil:
+				cur.length, _ = strconv.Atoi(val)
+			case v.Name.Local == "data" && cur != nil:
+				cur.path = strings.Join(names, "/")
+				out = append(out, *cur)
+				cur = nil
+			case v.Name.Local == "file" && len(names) > 0:
+				// the name element may follow the data element: patch entries recorded with "?"
+				full := strings.Join(names, "/")
+				for i := range out {
+					if strings.HasPrefix(out[i].path, strings.Join(names[:len(names)-1], "/")) && strings.Contains(out[i].path, "?") {
+						out[i].path = full
+					}
+				}
+				names = names[:len(names)-1]
+			}
+			stack = stack[:len(stack)-1]
+			text.Reset()
+		}
+	}
+	return out
 }
 
 // ---------- independent "did protected content change?" check ----------
@@ -425,8 +504,15 @@ type signedArt struct {
 }
 
 func signOne(t *rapid.T, format string, dir string) *signedArt {
+	return signOneFlags(t, format, dir, nil)
+}
+
+func signOneFlags(t *rapid.T, format string, dir string, extra map[string]string) *signedArt {
 	base := format
 	flags := map[string]string{}
+	for k, v := range extra {
+		flags[k] = v
+	}
 	if strings.HasPrefix(format, "pgp") {
 		base = "pgp"
 	}
@@ -695,6 +781,110 @@ func rewriteZip(data []byte, edit func(name string) (drop bool, replace []byte),
 	return buf.Bytes(), nil
 }
 
+var digestAttr = regexp.MustCompile(`(?m)^([A-Za-z0-9-]+)-Digest: (\S+)\r?$`)
+
+func hashByJarName(n string) crypto.Hash {
+	switch strings.ToUpper(n) {
+	case "SHA1", "SHA-1":
+		return crypto.SHA1
+	case "SHA-256", "SHA256":
+		return crypto.SHA256
+	case "SHA-384", "SHA384":
+		return crypto.SHA384
+	case "SHA-512", "SHA512":
+		return crypto.SHA512
+	}
+	return 0
+}
+
+// rewriteJarConsistently replaces the content of one payload member and recomputes its
+// manifest section and the corresponding .SF entries (section digest and whole-manifest
+// digest). The signature block file is left as it is. nil = not applicable.
+func rewriteJarConsistently(data []byte) []byte {
+	zr, err := zip.NewReader(bytes.NewReader(data), int64(len(data)))
+	if err != nil {
+		return nil
+	}
+	read := func(f *zip.File) []byte {
+		rc, err := f.Open()
+		if err != nil {
+			return nil
+		}
+		defer rc.Close()
+		b, _ := io.ReadAll(rc)
+		return b
+	}
+	var manifest, sf []byte
+	var sfName string
+	var payload []string
+	for _, f := range zr.File {
+		up := strings.ToUpper(f.Name)
+		switch {
+		case up == "META-INF/MANIFEST.MF":
+			manifest = read(f)
+		case strings.HasPrefix(up, "META-INF/") && strings.HasSuffix(up, ".SF"):
+			sf, sfName = read(f), f.Name
+		case !strings.HasPrefix(up, "META-INF/") && !strings.HasSuffix(f.Name, "/") && len(f.Name) < 50 && !strings.ContainsAny(f.Name, "\r\n"):
+			payload = append(payload, f.Name)
+		}
+	}
+	if manifest == nil || sf == nil || len(payload) == 0 {
+		return nil
+	}
+	sort.Strings(payload)
+	victim := payload[0]
+	newContent := []byte("replaced by the harness: " + victim)
+	// the victim's manifest section
+	marker := []byte("Name: " + victim + "\r\n")
+	i := bytes.Index(manifest, marker)
+	if i < 0 {
+		return nil
+	}
+	end := bytes.Index(manifest[i:], []byte("\r\n\r\n"))
+	if end < 0 {
+		return nil
+	}
+	end += i + 4
+	section := manifest[i:end]
+	m := digestAttr.FindSubmatch(section)
+	if m == nil {
+		return nil
+	}
+	h := hashByJarName(string(m[1]))
+	if h == 0 {
+		return nil
+	}
+	sum := func(b []byte) string {
+		d := h.New()
+		d.Write(b)
+		return base64.StdEncoding.EncodeToString(d.Sum(nil))
+	}
+	oldSectionDigest := sum(section)
+	oldManifestDigest := sum(manifest)
+	newSection := bytes.Replace(section, m[2], []byte(sum(newContent)), 1)
+	newManifest := append(append(append([]byte{}, manifest[:i]...), newSection...), manifest[end:]...)
+	if !bytes.Contains(sf, []byte(oldSectionDigest)) || !bytes.Contains(sf, []byte(oldManifestDigest)) {
+		return nil // another digest algorithm or sections-only layout
+	}
+	newSF := bytes.Replace(sf, []byte(oldSectionDigest), []byte(sum(newSection)), 1)
+	newSF = bytes.Replace(newSF, []byte(oldManifestDigest), []byte(sum(newManifest)), 1)
+	out, err := rewriteZip(data, func(n string) (bool, []byte) {
+		switch n {
+		case victim:
+			return false, newContent
+		case "META-INF/MANIFEST.MF":
+			return false, newManifest
+		case sfName:
+			return false, newSF
+		}
+		return false, nil
+	}, nil)
+	if err != nil {
+		return nil
+	}
+	return out
+}
+
 func sigMember(format, name string) bool {
 	up := strings.ToUpper(name)
 	switch format {
@@ -709,7 +899,7 @@ func sigMember(format, name string) bool {
 }
 
 func TestC02_Semantic(t *testing.T) {
-	kinds := []string{"zip-replace", "zip-delete", "zip-add", "jar-add-listed", "apk-v2-foreign-key", "apk-v2-foreign-key", "ps-append-after-block", "ps-graft", "ps-append-line", "pgp-graft", "pe-graft", "pe-append-after-table", "pe-append-inside-table", "cab-append", "xap-append", "msi-extra-stream", "msi-change-stream"}
+	kinds := []string{"zip-replace", "zip-delete", "zip-add", "jar-add-listed", "jar-consistent-rewrite-inline", "apk-v2-foreign-key", "apk-v2-foreign-key", "ps-append-after-block", "ps-graft", "ps-append-line", "pgp-graft", "pe-graft", "pe-append-after-table", "pe-append-inside-table", "cab-append", "xap-append", "msi-extra-stream", "msi-change-stream"}
 	reps := evid.EnvInt("VERIF_C02_SEMREPS", 8)
 	rapid.Check(t, func(t *rapid.T) {
 		for r := 0; r < reps; r++ {
@@ -817,6 +1007,17 @@ func semanticOnce(t *rapid.T, kinds []string) {
 			if err != nil {
 				panic("skip-rep")
 			}
+		case kind == "jar-consistent-rewrite-inline":
+			// a JAR whose PKCS#7 block carries the signature file inside ("inline"): a member
+			// is replaced and MANIFEST.MF and the .SF file are recomputed to match, only the
+			// PKCS#7 block (with the old .SF inside) stays: what is signed is no longer what
+			// the archive says
+			sa = signOneFlags(t, "jar", dir, map[string]string{"inline-signature": "true"})
+			mutated = rewriteJarConsistently(sa.data)
+			if mutated == nil {
+				panic("skip-rep")
+			}
+			cd.Region = "member+manifest+sf rewritten, pkcs7 kept"
 		case kind == "apk-v2-foreign-key":
 			// the v2 block rebuilt by someone who holds another key but lists the original
 			// signer's certificate: the signature value is not the certificate holder's
